@@ -617,7 +617,7 @@ def check(pid, tier):
             rep.finish()
         raise
     finally:
-        sc.cleanup(keep=bool(rep.violations))
+        sc.cleanup(keep=any(k.startswith("spec:") for k, _ in rep.violations))      # TLC output is referenced only by spec:* violations
 
 
 def _check(rep, tier):
